@@ -420,6 +420,37 @@ type idsResult struct {
 	splits []splitSpec
 }
 
+// tryIntConst evaluates an integer constant expression without failing.
+func tryIntConst(consts map[string]int, e ast.Expr) (int, bool) {
+	switch x := e.(type) {
+	case *ast.BasicLit:
+		if x.Kind == token.INT {
+			if v, err := strconv.Atoi(x.Value); err == nil {
+				return v, true
+			}
+		}
+	case *ast.Ident:
+		v, ok := consts[x.Name]
+		return v, ok
+	case *ast.ParenExpr:
+		return tryIntConst(consts, x.X)
+	case *ast.BinaryExpr:
+		a, ok1 := tryIntConst(consts, x.X)
+		b, ok2 := tryIntConst(consts, x.Y)
+		if ok1 && ok2 {
+			switch x.Op {
+			case token.ADD:
+				return a + b, true
+			case token.SUB:
+				return a - b, true
+			case token.MUL:
+				return a * b, true
+			}
+		}
+	}
+	return 0, false
+}
+
 func intConst(fset *token.FileSet, consts map[string]int, e ast.Expr) int {
 	switch x := e.(type) {
 	case *ast.BasicLit:
@@ -432,6 +463,18 @@ func intConst(fset *token.FileSet, consts map[string]int, e ast.Expr) int {
 	case *ast.Ident:
 		if v, ok := consts[x.Name]; ok {
 			return v
+		}
+	case *ast.ParenExpr:
+		return intConst(fset, consts, x.X)
+	case *ast.BinaryExpr: // constant arithmetic over named constants (e.g. ContextIDLen = txHashLen + msgIndexLen)
+		a, b := intConst(fset, consts, x.X), intConst(fset, consts, x.Y)
+		switch x.Op {
+		case token.ADD:
+			return a + b
+		case token.SUB:
+			return a - b
+		case token.MUL:
+			return a * b
 		}
 	}
 	failf(fset, e.Pos(), "integer constant expected, got %s", src(fset, e))
@@ -772,11 +815,18 @@ func translateIDs(path string) idsResult {
 		for _, sp := range gd.Specs {
 			vs := sp.(*ast.ValueSpec)
 			for i, n := range vs.Names {
-				if n.Name == "RequestIDLen" || n.Name == "ContextIDLen" {
-					if i >= len(vs.Values) {
+				if i >= len(vs.Values) {
+					if n.Name == "RequestIDLen" || n.Name == "ContextIDLen" {
 						failf(fset, vs.Pos(), "constant %s has no literal value", n.Name)
 					}
-					res.consts[n.Name] = intConst(fset, map[string]int{}, vs.Values[i])
+					continue
+				}
+				// every integer constant of the file, in declaration order, may be used by later ones and by the
+				// id functions (named offsets); non-integer constants are skipped
+				if v, ok := tryIntConst(res.consts, vs.Values[i]); ok {
+					res.consts[n.Name] = v
+				} else if n.Name == "RequestIDLen" || n.Name == "ContextIDLen" {
+					res.consts[n.Name] = intConst(fset, res.consts, vs.Values[i])
 				}
 			}
 		}
